@@ -1,0 +1,41 @@
+//go:build verif
+
+// Contracts for rpc/export.go (C07: references the peer holds on an export are counted exactly).
+package rpc
+
+//@ spec
+//@ func atOldU32(f func() uint32) uint32 { panic("spec") }
+//@ func atOldEnt(f func() *expent) *expent { panic("spec") }
+//@ // export table invariant used here: every table index is an issued export id
+//@ func exportsOK(c *Conn) bool { return c != nil && genOK(&c.exportID) && M(len(c.exports)) <= M(c.exportID.i) }
+//@ end
+
+//@ func Conn.findExport -> ent
+//@   props C07
+//@   requires c != nil
+//@   modifies nothing
+//@   ensures implies(M(id) >= M(len(c.exports)), ent == nil)
+//@   ensures implies(M(id) < M(len(c.exports)), ent == c.exports[int(id)])
+
+// releaseExport subtracts exactly `count` wire references: the export is dropped (entry cleared, id
+// freed, its client handed back for release) exactly when the count reaches zero; releasing more
+// than are held, or an unknown id, is an error and changes nothing.
+//@ func Conn.releaseExport -> client, err
+//@   props C07
+//@   requires exportsOK(c)
+//@   old ent0 *expent = c.findExport(id)
+//@   old refs0 uint32 = wireRefsOf(c.findExport(id))
+//@   ensures exportsOK(c)
+//@   ensures unknown: implies(ent0 == nil, err != nil && client == nil)
+//@   ensures toomany: implies(ent0 != nil && count > refs0, err != nil && client == nil && ent0.wireRefs == refs0 && c.exports[int(id)] == ent0)
+//@   ensures partial: implies(ent0 != nil && count < refs0, err == nil && client == nil && ent0.wireRefs == refs0-count && c.exports[int(id)] == ent0)
+//@   ensures last: implies(ent0 != nil && count == refs0, err == nil && client == ent0.client && c.exports[int(id)] == nil && inSet(c.exportID.free, uint(id)))
+
+//@ spec
+//@ func wireRefsOf(e *expent) uint32 {
+//@ 	if e == nil {
+//@ 		return 0
+//@ 	}
+//@ 	return e.wireRefs
+//@ }
+//@ end
